@@ -3,7 +3,7 @@
  "name": "copy_file_chunk",
  "props": ["C18"],
  "level": "U/iter",
- "tier": "wip",
+ "tier": "quick",
  "tier_after_hooks": "quick",
  "harness": "h_copy_file_chunk",
  "loop_contracts": true,
